@@ -11,15 +11,41 @@ ENTITIES = {'&': {'&amp;', '&#38;', '&#x26;'}, '<': {'&lt;', '&#60;', '&#x3c;', 
             "'": {'&apos;', '&#39;', '&#x27;'}}
 
 
+# XML-legal characters that a parser does not hand back as written: in attribute values TAB, LF
+# and CR are normalised to a space, in content CR (and CR LF) to LF (XML 1.0 sections 2.11, 3.3.3).
+# They survive only as numeric character references.
+WHITESPACE_REFS = {'\t': {'&#9;', '&#x9;', '&#x09;'},
+                   '\n': {'&#10;', '&#xa;', '&#xA;', '&#x0a;', '&#x0A;'},
+                   '\r': {'&#13;', '&#xd;', '&#xD;', '&#x0d;', '&#x0D;'}}
+
 SIMULTANEOUS = set()
 SAMPLE_TEXTS = ['', 'plain', '&', '<', '>', '"', "'", 'a&b', 'a<b>c', 'AT&amp;T', '&lt;tag&gt;',
                 '&#176;', '&#x26;', '&amp;amp;', "it's \"q\" & <more>", '&&', '&quot;', '&apos;x',
-                '&unknown;', '& ']
+                '&unknown;', '& ', 'a\tb', 'line 1\nline 2', 'cr\rlf\r\n', '\t&\n<\r']
 
 
 def oracle_escape(t):
     return t.replace('&', '&amp;').replace('<', '&lt;').replace('>', '&gt;') \
         .replace('"', '&quot;').replace("'", '&apos;')
+
+
+def same_text(got, t):
+    """got is a correct escape of t: reading it back (entities and character references
+    resolved, then the parser's whitespace normalisation of the *literal* characters left in got)
+    gives t in content and in attribute values."""
+    import re
+    if any(c in got for c in '<>"\'') or re.search(r'&(?!(amp|lt|gt|quot|apos|#\d+|#x[0-9a-fA-F]+);)', got):
+        return False
+
+    def unref(m):
+        body = m.group(1)
+        named = {'amp': '&', 'lt': '<', 'gt': '>', 'quot': '"', 'apos': "'"}
+        if body in named:
+            return named[body]
+        return chr(int(body[2:], 16) if body[1] in 'xX' else int(body[1:]))
+    content = re.sub(r'&([^;]+);', unref, got.replace('\r\n', '\n').replace('\r', '\n'))
+    attr = re.sub(r'&([^;]+);', unref, re.sub(r'[\t\n\r]', ' ', got))
+    return content == t and attr == t
 
 
 class Unevaluable(Exception):
@@ -68,7 +94,7 @@ def escape_witness(rv, inp):
         except Exception as exc:  # e.g. a malformed regular expression literal
             return ('unevaluable', '%s: %s' % (type(exc).__name__, exc))
         n += 1
-        if got != oracle_escape(t):
+        if not same_text(got, t):
             return ('witness', t, got, oracle_escape(t))
     return ('agree', n)
 
@@ -160,7 +186,11 @@ def check_escape(ck, prog, chain_override=None, canary=False):
     # D2: the set of (char, entity) pairs is the XML predefined-entity table
     seen = {}
     for a, b in chain:
-        if a not in ENTITIES:
+        if a in WHITESPACE_REFS:
+            if b not in WHITESPACE_REFS[a]:
+                bad('C20-D2-table', 'xml_escape::pair:%r' % a,
+                    '%r is replaced by %r, which is not a character reference for it' % (a, b))
+        elif a not in ENTITIES:
             bad('C20-D2-table', 'xml_escape::pair:%r' % a,
                 'replacement of %r is not one of the five XML special characters' % a)
         elif b not in ENTITIES[a]:
@@ -171,6 +201,14 @@ def check_escape(ck, prog, chain_override=None, canary=False):
         if c not in seen:
             bad('C20-D2-table', 'xml_escape::missing:%r' % c,
                 'special character %r is never escaped' % c)
+    for c in WHITESPACE_REFS:
+        if c not in seen:
+            bad('C20-D5-whitespace', 'xml_escape::unescaped:%r' % c,
+                '%r is XML-legal but is left as it is: in an attribute value the parser turns it '
+                'into a space%s, so the text is not read back as the original; it has to be '
+                'written as a numeric character reference (%s)'
+                % (c, ' (and in content CR becomes LF)' if c == '\r' else '',
+                   sorted(WHITESPACE_REFS[c])[0]))
     # D3: no later step rewrites the output of an earlier one
     for i, (a_i, b_i) in enumerate([] if simultaneous else chain):
         for a_j, b_j in chain[i + 1:]:
@@ -444,6 +482,10 @@ def run(ck, prog, tier):
     for f in found:
         if f[0] == 'C20-D2-table' and not any(repr(c) in f[1] for c in ENTITIES):
             ck.ob('C20-D2-table', f[1], False, f[2], loc, key=f[1])
+    for c in WHITESPACE_REFS:
+        bad = [f for f in found if f[0] == 'C20-D5-whitespace' and repr(c) in f[1]]
+        ck.ob('C20-D5-whitespace', 'xml_escape::whitespace:%r' % c, not bad,
+              bad[0][2] if bad else '', loc, key=bad[0][1] if bad else None)
     n_pairs = 0
     for i, (a_i, _) in enumerate(chain):
         for a_j, _ in chain[i + 1:]:
